@@ -685,7 +685,7 @@ def run(chk):
     from py2coq import readerflow, TranslationError
     rng = chk.rng
     quick = chk.tier == "quick"
-    n_gen, budget, n_walk, n_bytes, n_frag = (12, 12000, 400, 400, 4000) if quick else (60, 150000, 4000, 5000, 40000)
+    n_gen, budget, n_walk, n_bytes, n_frag = (12, 10000, 400, 400, 4000) if quick else (60, 150000, 4000, 5000, 40000)
     # ---- tie T
     trans = None
     try:
